@@ -139,6 +139,8 @@ type Engine struct {
 	netConns     []*netConn
 	netByPtr     map[*value]*netConn
 	httpSt       *httpState
+	vclock       int64
+	idleWakeups  int
 }
 
 var E *Engine
@@ -190,6 +192,8 @@ func (e *Engine) resetPath() {
 	e.netConns = nil
 	e.netByPtr = nil
 	e.httpSt = nil
+	e.vclock = 0
+	e.idleWakeups = 0
 }
 
 // endPath terminates the current path with the given outcome.
